@@ -44,6 +44,9 @@ def judge_listing(ctx, ws, text, origin, force_history=False):
 
 
 def _judge_listing(ctx, ws, text, origin, force_history=False):
+    if ctx.rng.random() < 0.25:
+        from jv.props import c08
+        c08.failing_run(ctx, ws)          # a run that aborts (at match time, or in the middle of the listing) right before: nothing of it may stay
     p = ws.write("in.s", text)
     REC.clear()
     r = objd.real_stream(ws, p)
@@ -167,6 +170,16 @@ def run_shard(ctx):
         else:
             ctx.event("assembled_batches_judged")
             judge_listing(ctx, ws, r[1], f"as{bits}")
+    for i in range(ctx.share(3, 48)):
+        # more instructions than 2^16 / 2^17: what a buffered or chunked encoder would have to carry over
+        count = [2 ** 16, 2 ** 17, 2 ** 15][(ctx.shard + i) % 3] + ctx.rng.randint(3, 400)
+        body = [("90", "nop"), ("c3", "ret"), ("50", "push   %rax"), ("48 89 e5", "mov    %rsp,%rbp")]
+        lines = ["Disassembly of section .text:", "", "0000000000401000 <f>:"]
+        for j in range(count):
+            b, t = body[(j * 7 + j // 13) % len(body)]
+            lines.append(f"  {0x401000 + 4 * j:x}:\t{b:<21}\t{t}")
+        ctx.event("huge_listings_judged")
+        judge_listing(ctx, ws, "\n".join(lines) + "\n", f"huge/{count}")
     n = ctx.share(160, 12000)
     for k in range(n):
         blob, secs, bits = objd.random_object(ctx.rng)
